@@ -441,6 +441,10 @@ func (packet *PacketHandler) ReplaceBind(bindPacket *BindPacket) error {
 
 // GetSimpleQuery return query value as string from Query packet
 func (packet *PacketHandler) GetSimpleQuery() (string, error) {
+	if packet.dataLength < 1 || packet.dataLength > packet.descriptionBuf.Len() {
+		// no room even for the terminating zero byte
+		return "", ErrInvalidPacketLength
+	}
 	return string(packet.descriptionBuf.Bytes()[:packet.dataLength-1]), nil
 }
 
